@@ -129,7 +129,7 @@ def _history(draw):
             runs[-1]["corrupt"] = {"shank": draw(st.integers(0, 3)), "pos": draw(st.sampled_from([0.0, 0.3, 0.55, 0.8, 0.999])),
                                    "col": draw(st.integers(0, 15))}
     return {"mode": "history", "spec": spec, "cbin": draw(st.booleans()), "kind": kind, "content_seed": draw(st.integers(0, 2 ** 31)),
-            "runs": runs}
+            "runs": runs, "stem": draw(st.sampled_from(np2.STEMS))}
 
 
 def strategy(tier):
@@ -154,7 +154,10 @@ class World:
             # an AP file that is already one shank of a split recording
             meta_text = gm.build_text(spec) + "NP2.4_shank=0\nsnsSaveChanSubset_orig=0:%d\noriginal_meta=False\n" % self.nap
         folder = self.root / "probe00"
-        binf = rec.write_recording(folder, spec, self.D, stem=np2.STEM, meta_text=meta_text)
+        self.stem = case.get("stem") or np2.STEM
+        if self.stem != np2.STEM:
+            ctx.label("run_name_" + self.stem.split("_g")[0])
+        binf = rec.write_recording(folder, spec, self.D, stem=self.stem, meta_text=meta_text)
         self.bin = binf
         self.cbin = binf.with_suffix(".cbin")
         if case["cbin"]:
@@ -200,7 +203,7 @@ class World:
         fold = self.shank_folder(s)
         cols = np.r_[np.flatnonzero(self.shank == s), self.nap]
         for suf in ([want_suffix] if want_suffix else [".bin", ".cbin"]):
-            f = fold / (np2.STEM + suf)
+            f = fold / (self.stem + suf)
             if not f.exists():
                 continue
             try:
@@ -214,12 +217,20 @@ class World:
     def reassembles(self):
         return self.gen == "NP2.4" and all(self.shank_ap_ok(s) for s in self.shanks)
 
+    @staticmethod
+    def lf_files(fold, suf=".*bin"):
+        """LF-band binaries in a folder, whatever the run name: <anything>.lf.bin / .lf.cbin"""
+        return sorted(p for p in Path(fold).glob("*.lf" + suf) if p.suffix in (".bin", ".cbin"))
+
+    def lf_path(self, fold, suf):
+        c = self.lf_files(fold, suf)
+        return c[0] if len(c) == 1 else Path(fold) / ("<%d files named *.lf%s>" % (len(c), suf))
+
     def output_exists(self):
         if self.gen == "NP2.4":
             return any(self.shank_folder(s).exists() for s in self.shanks)
         if self.gen == "NP2.1":
-            lf = self.root / "probe00" / (np2.STEM.replace("ap", "lf") + ".bin")
-            return lf.exists() or lf.with_suffix(".cbin").exists()
+            return bool(self.lf_files(self.root / "probe00"))
         return False
 
     # ---- one run ---------------------------------------------------------------------------------
@@ -326,8 +337,8 @@ class World:
                                  lambda: f"{where}: shank {s} has no complete AP{suf} equal to the original columns; "
                                  f"folder holds {sorted(p.name for p in fold.iterdir()) if fold.exists() else None}"):
                     return
-                apf = fold / (np2.STEM + suf)
-                lff = fold / (np2.STEM.replace("ap", "lf") + suf)
+                apf = fold / (self.stem + suf)
+                lff = self.lf_path(fold, suf)
                 ncl = int(np.sum(self.shank == s)) + 1
                 for f, shape in ((apf, (self.ns, ncl)), (lff, (nlf, ncl))):
                     if not ctx.check(f.exists() and f.with_suffix(".meta").exists(), "C04.incomplete_output", lambda: f"{where}: {f.name} or its metadata missing in {fold.name}"):
@@ -345,7 +356,7 @@ class World:
         elif self.gen == "NP2.1":
             fold = self.root / "probe00"
             suf = ".cbin" if r["compress"] else ".bin"
-            lff = fold / (np2.STEM.replace("ap", "lf") + suf)
+            lff = self.lf_path(fold, suf)
             if not ctx.check(lff.exists() and lff.with_suffix(".meta").exists(), "C04.incomplete_output", lambda: f"{where}: NP2.1 LF file {lff.name} missing"):
                 return
             sr = ctx.call("C04.open_output", sg.Reader, lff, sort=False)
